@@ -42,3 +42,86 @@ Section Explore.
     exact (proj1 (crun_inv H sched _ _ (cinv_start H blobs ts (oci_reach_ok H blobs R) F) Er)).
   Qed.
 End Explore.
+
+(* ------------------------------------------------------------------ concurrent pushes into one cas.Memory *)
+Section MemoryConc.
+  Variable H : str -> str -> str.
+
+  Definition mthr_ok (t : mthr) : Prop :=
+    match m_pc t with
+    | MRead None buf => matches_desc H (d_dg (m_d t)) (d_sz (m_d t)) buf /\
+                        exists rest, stream (m_evs t) = buf ++ rest
+    | _ => True
+    end.
+
+  Definition minv (st : mstate) : Prop := mem_ok H (ms_mem st) /\ Forall mthr_ok (ms_thr st).
+
+  Lemma mstep_inv st i st' : minv st -> mstep H st i = Some st' -> minv st'.
+  Proof.
+    intros [Om Ft]. unfold mstep. destruct (nth_error (ms_thr st) i) as [t|] eqn:Ei; [|discriminate].
+    pose proof (Forall_nth_error _ _ _ _ Ft Ei) as Pt. unfold mthr_ok in Pt.
+    destruct (m_pc t) as [|[e|] buf|r] eqn:Epc; [| | |discriminate].
+    - destruct (match m_lim t with Some l => (d_sz (m_d t) >? l)%Z | None => false end).
+      { intro E; inversion E; subst. split; auto. apply Forall_set_nth; auto; exact I. }
+      destruct (mem_get (ms_mem st) (m_d t)).
+      { intro E; inversion E; subst. split; auto. apply Forall_set_nth; auto; exact I. }
+      destruct (read_all H (m_comb t) true (m_fuel t) _ (d_dg (m_d t)) (d_sz (m_d t))) as [[e buf] v] eqn:Er.
+      intro E; inversion E; subst. split; auto. apply Forall_set_nth; auto.
+      unfold mthr_ok; simpl. destruct e; [exact I|].
+      apply read_all_sound in Er as (A & B & _). split; auto.
+    - intro E; inversion E; subst. split; auto. apply Forall_set_nth; auto; exact I.
+    - destruct (mem_get (ms_mem st) (m_d t)) eqn:G; intro E; inversion E; subst.
+      + split; auto. apply Forall_set_nth; auto; exact I.
+      + split; [|apply Forall_set_nth; auto; exact I]. simpl.
+        intros d' bs'. rewrite mem_get_cons. destruct (desc_eqb (m_d t) d') eqn:Q.
+        * apply desc_eqb_spec in Q. subst d'. intro X; inversion X; subst. apply Pt.
+        * apply Om.
+  Qed.
+
+  Lemma mrun_inv sched : forall st st', minv st -> mrun H st sched = Some st' -> minv st'.
+  Proof.
+    induction sched as [|i r IH]; intros st st' Iv; simpl.
+    - intro E; inversion E; subst; auto.
+    - destruct (mstep H st i) as [st1|] eqn:Es; [|discriminate]. apply IH. eapply mstep_inv; eauto.
+  Qed.
+
+  (* any number of threads, any descriptors, any schedule: whatever the memory store
+     holds at any instant matches its descriptor; a push that reports success has
+     stored a prefix of its own reader (its whole content without LimitedStorage) *)
+  Lemma memory_concurrent m ts sched st :
+    mem_reach H m -> Forall (fun t => m_pc t = MStart) ts ->
+    mrun H (mkM m ts) sched = Some st ->
+    (forall d bs, mem_get (ms_mem st) d = Some bs -> matches_desc H (d_dg d) (d_sz d) bs) /\
+    (forall i st' t buf, mstep H st i = Some st' -> nth_error (ms_thr st) i = Some t ->
+       m_pc t = MRead None buf -> mem_get (ms_mem st) (m_d t) = None ->
+       mem_get (ms_mem st') (m_d t) = Some buf /\ matches_desc H (d_dg (m_d t)) (d_sz (m_d t)) buf /\
+       exists rest, stream (m_evs t) = buf ++ rest).
+  Proof.
+    intros R F E.
+    assert (I0 : minv (mkM m ts)).
+    { split; [apply mem_reach_ok; exact R|]. simpl. eapply Forall_impl; [|exact F].
+      intros t Et. unfold mthr_ok. rewrite Et. exact I. }
+    pose proof (mrun_inv sched _ _ I0 E) as [Om Ft]. split; [exact Om|].
+    intros i st' t buf Es Ei Ep G. unfold mstep in Es. rewrite Ei, Ep, G in Es. inversion Es; subst; clear Es.
+    pose proof (Forall_nth_error _ _ _ _ Ft Ei) as Pt. unfold mthr_ok in Pt. rewrite Ep in Pt.
+    simpl. assert (Q : desc_eqb (m_d t) (m_d t) = true) by (apply desc_eqb_spec; reflexivity).
+    rewrite Q. split; [reflexivity|exact Pt].
+  Qed.
+
+  Lemma explore_m_reachable fuel : forall st st',
+    In st' (explore_m H fuel st) -> exists sched, mrun H st sched = Some st'.
+  Proof.
+    induction fuel as [|f IH]; intros st st'; simpl; [intros []|].
+    set (nexts := flat_map (fun i => match mstep H st i with Some st1 => [st1] | None => [] end)
+                           (seq 0 (length (ms_thr st)))).
+    assert (Hn : forall st1, In st1 nexts -> exists i, mstep H st i = Some st1).
+    { intros st1 I1. apply in_flat_map in I1 as (i & _ & I2).
+      destruct (mstep H st i) as [s|] eqn:E; [|destruct I2].
+      destruct I2 as [->|[]]. exists i. exact E. }
+    destruct nexts as [|n0 nr] eqn:En.
+    - intros [<-|[]]. exists []. reflexivity.
+    - intro I1. apply in_flat_map in I1 as (st1 & I2 & I3).
+      destruct (Hn st1 I2) as (i & Es). destruct (IH _ _ I3) as (sched & Er).
+      exists (i :: sched). simpl. rewrite Es. exact Er.
+  Qed.
+End MemoryConc.
